@@ -208,9 +208,24 @@ def oracle(c):
                 return ('tolerant-token-error-raised', {'pos': p0})
             if tr.cur_pos() != p0:
                 return ('peek-moves-on-error', {'pos': p0, 'after': tr.cur_pos()})
-            return None
+            # a token that cannot be read is an error for the None-returning variant too, not "end of stream"
+            try:
+                r = tr.peek_token_or_none(ps)
+            except LatexWalkerTokenParseError:
+                return None
+            except Exception as e2:
+                return ('peek_token_or_none-raised-%s' % type(e2).__name__, {'pos': p0})
+            return ('peek_token_or_none-hides-token-error', {'pos': p0, 'returned': None if r is None else T.dump_token(r)})
         if tr.cur_pos() != p0:
             return ('peek-moves', {'pos': p0, 'after': tr.cur_pos(), 'token': T.dump_token(pk)})
+        # the None-returning variant sees the same token (None only at the end of the stream)
+        try:
+            pkn = tr.peek_token_or_none(ps)
+        except Exception as e:
+            return ('peek_token_or_none-raised-where-peek-returns', {'pos': p0, 'exception': type(e).__name__})
+        if pkn is None or T.dump_token(pkn) != T.dump_token(pk) or tr.cur_pos() != p0:
+            return ('peek_token_or_none-differs-from-peek', {'pos': p0, 'peek': T.dump_token(pk),
+                                                             'or_none': None if pkn is None else T.dump_token(pkn)})
         pk2 = tr.peek_token(ps)
         if T.dump_token(pk2) != T.dump_token(pk):
             return ('peek-not-idempotent', {'pos': p0, 'first': T.dump_token(pk), 'second': T.dump_token(pk2)})
@@ -230,6 +245,16 @@ def oracle(c):
         n += 1
         if n > len(s):
             return ('too-many-tokens', {'count': n})
+        # the four ways of moving relative to a token land where documented
+        ps_len = len(getattr(t, 'post_space', '') or '')
+        for how, want in ((lambda: tr.move_past_token(t), t.pos_end),
+                          (lambda: tr.move_past_token(t, fastforward_post_space=False), t.pos_end - ps_len),
+                          (lambda: tr.move_to_token(t, rewind_pre_space=False), t.pos),
+                          (lambda: tr.move_to_token(t), t.pos - len(t.pre_space))):
+            how()
+            if tr.cur_pos() != want:
+                return ('move-relative-to-token-lands-elsewhere', {'token': T.dump_token(t), 'expected': want,
+                                                                   'observed': tr.cur_pos()})
         # rewind and read again
         tr.move_to_token(t)
         if tr.cur_pos() != p0:
